@@ -698,10 +698,32 @@ def c08(tier, seed):
         g, scs = gen_scenarios("C08", "Gen_Curve", env={"NOPS": 2, "NVAR": 1, "SALT": seed}, timeout=1200)
         v.add_tlc(g)
         scs = scs[seed % 60::60]
-    g, s2 = gen_scenarios("C08", "Gen_Curve", env={"NOPS": 5, "NVAR": 1, "SALT": seed}, simulate=2500 if th else 90, depth=8, seed=seed, workers=1)
+    g, s2 = gen_scenarios("C08", "Gen_Curve", env={"NOPS": 5, "NVAR": 1, "SALT": seed}, simulate=2500 if th else 90, depth=14, seed=seed, workers=1)
     v.add_tlc(g)
     scs += s2
     v.exhaustive = False
     simple_validate("C08", v, scs, "all", "Trace_Curve", sigfn=lambda sc, tup: {"fam": "curve", "kind": sc.get("kind")}, timeout=3000)
+    v.samples = [scs[0], scs[-1]]
+    return v.finish()
+
+
+@prop("C16")
+def c16(tier, seed):
+    v = Verdicts("C16", tier, seed)
+    th = tier == "thorough"
+    v.rule = ("Gen_Curve(FAM=flatten): paths of up to 5 ops over {M, L, Q, C, Z} with control points from an 8-point half-pixel menu, "
+              "including curves as first op, directly after MoveTo and directly after Close, with tolerances 1, 1/4, 1/10, 1/16, 1/64; every "
+              "two-op path (subsampled) and simulated longer ones; each flattened path is matched op by op against Flatten.tla; "
+              "non-trivial = the path contains a curve (all do)")
+    v.trusted = ["harness rounding of output vertices to 1/1024 px (harness/src/pathfam.rs)", "Curve.tla fine polyline and deviation bound"]
+    g, scs = gen_scenarios("C16", "Gen_Curve", env={"FAM": "flatten", "NOPS": 2, "NVAR": 1, "SALT": seed}, timeout=1200)
+    v.add_tlc(g)
+    step = 12 if th else 80
+    scs = scs[seed % step::step]
+    g, s2 = gen_scenarios("C16", "Gen_Curve", env={"FAM": "flatten", "NOPS": 5, "NVAR": 1, "SALT": seed}, simulate=3000 if th else 400, depth=14, seed=seed, workers=1)
+    v.add_tlc(g)
+    scs += s2
+    scs += known_scenarios("C16", "flatten")
+    simple_validate("C16", v, scs, "all", "Trace_Flatten", sigfn=lambda sc, tup: {"fam": "flatten", "what": tup[3]}, timeout=3000)
     v.samples = [scs[0], scs[-1]]
     return v.finish()
